@@ -12,7 +12,7 @@ From Coq Require Import ZArith Bool List Lia.
 From GoCoap Require Import Base.Bytes Block.Model Blockwise.Config Blockwise.Model Blockwise.Spec Blockwise.Proofs Blockwise.Run
   Blockwise.ProofsExchange Blockwise.ProofsProgressDown.
 From GoCoap Require Blockwise.ProofsProgressUp Blockwise.ProofsProgressBoth.
-From GoCoap Require Import Blockwise.Timed Blockwise.ProofsTimed.
+From GoCoap Require Import Blockwise.Timed Blockwise.ProofsTimed Blockwise.ProofsMix.
 Import ListNotations.
 Open Scope Z_scope.
 
@@ -612,3 +612,61 @@ Example C04_reuse_after_deadline :
            (model_obs_t reuse_cfg reuse_es) = [(0, 78, csum (res_body (R 11 75 false 42) 1))] /\
   nth 1 (o_sizes (nth 9 (model_obs_t reuse_cfg reuse_es) (Ob 0 None None [] 0 [] [] 0))) 0 = 1.
 Proof. exact reuse_after_deadline. Qed.
+
+(* ---------------------------------------------------------------------------------------- *)
+(* "Concurrent transfers with different tokens never mix" as its own classes.                 *)
+(* Spec.c04_class_x refines class 1 (a body that is wrong for the token it is handed over     *)
+(* under) by what the applications supplied in the scenario: 8 = it is exactly a body supplied *)
+(* under ANOTHER token, 9 = it is the beginning of a body supplied under one token followed by *)
+(* the rest of a body supplied under a different token (cut at a multiple of 16 bytes).        *)
+(* Tokens are whole values (in the correspondence runs: whole byte strings - 01, 01 00,        *)
+(* 01 00 00, 00 01 ... are pairwise distinct tokens with distinct names).                      *)
+(* ---------------------------------------------------------------------------------------- *)
+
+(* the refinement is conservative: it fails exactly when Spec.c04_class fails, and differs from it
+   only by saying 8 or 9 where that says 1 *)
+Theorem C04_mix_classes_conservative : forall c es os,
+  (c04_class_x c es os = 0%N <-> c04_class c es os = 0%N) /\
+  (c04_class_x c es os = c04_class c es os \/
+   (c04_class c es os = 1%N /\ (c04_class_x c es os = 8%N \/ c04_class_x c es os = 9%N))).
+Proof. intros c es os. split; [exact (c04_class_x_zero_iff c es os)|exact (c04_class_x_values c es os)]. Qed.
+Print Assumptions C04_mix_classes_conservative.
+
+(* On the model's trace of EVERY script of every well-formed configuration - any number of
+   exchanges with pairwise distinct tokens in flight together, every order of delivery,
+   duplication, loss, replay of anything ever sent, resource changes, time-outs, sweeps - the
+   refined property holds: in particular no application is ever handed a body supplied under
+   another token, nor a splice of bodies supplied under two tokens.  (Isolation as a simulation
+   by a single-token run: C04_exchange_isolated.) *)
+Theorem C04_exchange_no_mixing : forall c, cfg_wf c -> forall es, Forall (bump_ok c) es ->
+  c04_class_x c es (model_obs c es) = 0%N.
+Proof. exact exchange_no_mixing. Qed.
+Print Assumptions C04_exchange_no_mixing.
+
+(* ... also with virtual time (ageing and sweeps at any point) *)
+Theorem C04_timed_exchange_no_mixing : forall c, cfg_wf c -> forall es, Forall (tbump_ok c) es ->
+  c04_class_x c (untimed es) (model_obs_t c es) = 0%N.
+Proof. exact timed_exchange_no_mixing. Qed.
+Print Assumptions C04_timed_exchange_no_mixing.
+
+(* Non-vacuity.  (a) The classes are reachable: for two 40-byte uploads under the tokens 1 and 303
+   (byte strings 01 and 01 00), a trace that hands the body of 303 over under token 1 is class 8,
+   one that hands over the first block of 1 followed by the rest of 303 is class 9 (both class 1
+   unrefined), the trace with each body under its own token is class 0.  (b) The hypotheses of
+   C04_exchange_no_mixing hold for that configuration with the interleaved history the seeded
+   regressions need (both uploads started together, their blocks alternating on the wire): the
+   model hands each body over under its own token and both Do calls return ok. *)
+Example C04_mix_classes_reachable :
+  cfg_wf mix_cfg /\
+  c04_class_x mix_cfg [] mix_os0 = 0%N /\ c04_class_x mix_cfg [] mix_os8 = 8%N /\ c04_class_x mix_cfg [] mix_os9 = 9%N /\
+  c04_class mix_cfg [] mix_os8 = 1%N /\ c04_class mix_cfg [] mix_os9 = 1%N.
+Proof. exact mix_classes_reachable. Qed.
+Example C04_similar_tokens_interleaved :
+  Forall (bump_ok mix_cfg) mix_es /\
+  flat_map (fun o => map (fun d => (o_side o, ptok d, plen d, psum d))
+                         (filter (fun d => 0 <? plen d) (o_deliv o))) (model_obs mix_cfg mix_es)
+  = [(1, 1, 40, csum (mix_body 5)); (1, 303, 40, csum (mix_body 12));
+     (0, 1, 5, csum (res_body (R 11 5 false 42) 0)); (0, 303, 5, csum (res_body (R 13 5 false 43) 0))] /\
+  flat_map o_ret (model_obs mix_cfg mix_es) = [(0, 0); (1, 0)] /\
+  c04_class_x mix_cfg mix_es (model_obs mix_cfg mix_es) = 0%N.
+Proof. exact mix_model_interleaved. Qed.
